@@ -58,7 +58,7 @@ func profileFor(prop string) profile {
 	case "C11":
 		p.w = opWeights{ins: 50, del: 38, get: 12}
 	case "C12":
-		p.w = opWeights{ins: 48, del: 40, get: 10, size: 2}
+		p.w = opWeights{ins: 44, del: 38, get: 8, size: 1, rng: 4, prefix: 2, min: 1, max: 1, topk: 1}
 		p.minTrees, p.maxTrees = 2, 6
 		p.envRate = 12
 		p.fanHeavy = true
@@ -1158,8 +1158,20 @@ func genTrace(prop string, seed uint64, run int, o genOpts) *Trace {
 			if r.Chance(1, 3) {
 				continue
 			}
+			// everything is asked once while the tree is still full (queries may cache
+			// things that the emptying must invalidate), then the keys go in random,
+			// ascending (maximum last) or descending (minimum last) order
+			emitBattery(ti, g)
+			order := r.Intn(3)
 			for g.m.Len() > 0 {
-				k := g.m.es[r.Intn(g.m.Len())].orig
+				idx := r.Intn(g.m.Len())
+				switch order {
+				case 1:
+					idx = 0
+				case 2:
+					idx = g.m.Len() - 1
+				}
+				k := g.m.es[idx].orig
 				s := Step{T: ti, Op: "del", K: clone(k)}
 				s.Lay, s.Pad = lay(g)
 				emit(s)
@@ -1169,7 +1181,27 @@ func genTrace(prop string, seed uint64, run int, o genOpts) *Trace {
 				}
 			}
 			emitBattery(ti, g)
+			// second life. For collation trees the first key may be a byte-different,
+			// collation-equivalent spelling of the key deleted last (nothing else is
+			// stored, so the collator has nothing to confuse it with)
+			if g.kt.Kind == "collation" && len(g.deleted) > 0 && r.Chance(1, 2) {
+				last := g.deleted[len(g.deleted)-1]
+				if v := collVariant(r, last); v != nil && !g.m.Conflicts(v) {
+					emit(Step{T: ti, Op: "ins", K: v, V: nextID})
+					g.m.Put(v, nextID)
+					nextID++
+					emit(Step{T: ti, Op: "get", K: v})
+					emit(Step{T: ti, Op: "get", K: clone(last)})
+					emit(Step{T: ti, Op: "all"})
+					emit(Step{T: ti, Op: "del", K: v})
+					g.m.Del(v)
+				}
+			}
+			defer2 := func() { emitBattery(ti, g) }
 			n := r.Intn(12)
+			if n > 0 {
+				defer defer2()
+			}
 			for j := 0; j < n; j++ {
 				k := g.newKey(r, fanHeavy)
 				if g.kt.Kind == "collation" && g.m.Conflicts(k) {
@@ -1186,8 +1218,48 @@ func genTrace(prop string, seed uint64, run int, o genOpts) *Trace {
 				if r.Chance(1, 3) {
 					emit(Step{T: ti, Op: "get", K: k})
 				}
+				if j < 3 {
+					// right after the first keys of the second life: the queries that look at extremes
+					emit(Step{T: ti, Op: "max"})
+					emit(Step{T: ti, Op: "min"})
+					if g.kt.Kind == "alpha" {
+						emit(Step{T: ti, Op: "range"}) // Range("", ""): everything up to the largest key
+					}
+				}
 			}
 		}
 	}
 	return tr
+}
+
+// collVariant returns a byte-different string with the same collation sort key
+// (canonical equivalence, or an ignorable character), or nil.
+func collVariant(r *RNG, k []byte) []byte {
+	s := string(k)
+	pairs := [][2]string{{"\u00e9", "e\u0301"}, {"\u00e8", "e\u0300"}, {"\u00f6", "o\u0308"}, {"\u00fc", "u\u0308"}, {"\u00e5", "a\u030a"}, {"\u00e4", "a\u0308"}, {"\u00f1", "n\u0303"}, {"\u00c9", "E\u0301"}, {"\u00d6", "O\u0308"}}
+	for _, p := range pairs {
+		for _, d := range [][2]string{{p[0], p[1]}, {p[1], p[0]}} {
+			if i := indexOf(s, d[0]); i >= 0 {
+				return []byte(s[:i] + d[1] + s[i+len(d[0]):])
+			}
+		}
+	}
+	if len(k) == 0 {
+		return nil
+	}
+	// a soft hyphen (completely ignorable) at a rune boundary
+	cut := r.Intn(len(k) + 1)
+	for cut > 0 && cut < len(k) && !utf8.RuneStart(k[cut]) {
+		cut--
+	}
+	return []byte(s[:cut] + "\u00ad" + s[cut:])
+}
+
+func indexOf(s, sub string) int {
+	for i := 0; i+len(sub) <= len(s); i++ {
+		if s[i:i+len(sub)] == sub {
+			return i
+		}
+	}
+	return -1
 }
